@@ -199,7 +199,19 @@ def gen_cases(ctx):
     for _ in range(6 if quick else 40):   # registrations the ingest path would not have produced
         cases.append({"kind": "announce", "reg": reg(rng.choice(good + bad), rng.choice(good + bad + [None])),
                       "secret": rng.getrandbits(256).to_bytes(32, "big").hex()})
-    # the ingest path
+    # the ingest path: first the full cross product {registrant class} x {ipv6addr override class} x {ipv4addr override} x
+    # {v6 support} on an otherwise valid dual-stack message (the interactions between the family gate, the override checks
+    # and the mixed-family guard live here), then random messages
+    registrants = [None, rng.choice(v4), rng.choice(mapped), rng.choice(v6), v6[0], rng.choice(bad[1:])]
+    ov6s = [None, rng.choice(v6), rng.choice(mapped), mapped[0], rng.choice(bad), b""]
+    for ra in registrants:
+        for o6 in ov6s:
+            for o4 in (None, 0x0A000001):
+                for v6s in (True, False):
+                    cases.append({"kind": "ingest", "addr": hx(ra), "secret": rng.getrandbits(256).to_bytes(32, "big").hex(),
+                                  "randport": None, "has_rr": o6 is not None or o4 is not None, "ov4": o4, "ov6": hx(o6), "odst": None,
+                                  "source": rng.choice([1, 2, 4]), "subnets": SUBNETS, "en4": True, "en6": True, "v4": True, "v6": v6s,
+                                  "transport": rng.choice([1, 2, 3, 4]), "gen": rng.choice([1, 2, 5]), "libver": rng.choice([3, 4])})
     n_ing = 170 if quick else 2500
     for i in range(n_ing):
         wild = i % 2 == 1          # every other message is mostly valid, the rest mixes every malformation
@@ -385,6 +397,87 @@ def check_announcement(ctx, origin, r, m, det, want_op, want_ns, case):
 
 
 # ------------------------------------------------------------------ run
+def oracle_ingest(ctx, c, r, det_of_case, count=True):
+    """the property's statement on everything one C2SWrapper led the station to announce (parseRegMessage's registrations,
+    then the constructor's); returns False if the announcements cannot be matched to registrations"""
+    msgs = r.get("msgs") or []
+    regs = r.get("regs") or []
+    direct = [r[k] for k in ("direct4", "direct6") if r.get(k)]
+    if len(msgs) != 2 * (len(regs) + len(direct)):
+        return False
+    cc = {k: v for k, v in c.items() if k != "subnets"}
+    for ri, rg in enumerate(regs + direct):
+        for k, (upd, want_op, want_ns) in enumerate([(False, 1, UNUSED_NS), (True, 2, ACTIVE_NS)]):
+            mi = 2 * ri + k
+            ok = check_announcement(ctx, "ingest" if ri < len(regs) else "NewRegistrationC2SWrapper", rg, msgs[mi], det_of_case[mi],
+                                    want_op, want_ns, {"case": cc, "registration": rg, "message": msgs[mi]})
+            if count:
+                ctx.count(("ingest-announce", rg, upd), kind="ingest-announce/" + ("ok" if ok else "bad"))
+    return True
+
+
+def neighbours(ctx, base):
+    """cases around an ingest case on which model and code disagreed: the registrant switched among all classes crossed with
+    every class of ipv6addr override, and each other deciding field toggled on its own"""
+    rng = ctx.rng
+    v4, mapped, v6, bad = ip_pools(rng)
+    regs_ = [None, v4[0], rng.choice(v4), mapped[0], rng.choice(mapped), v6[0], v6[2], rng.choice(v6), b"", bad[1], bad[3], bad[6], bad[7]]
+    ov6s = [None, v6[2], rng.choice(v6), mapped[0], rng.choice(mapped), b"", bad[2], bad[6], bad[7]]
+    out = []
+
+    def var(**kw):
+        c = dict(base)
+        c.update(kw)
+        c["has_rr"] = c["has_rr"] or any(c.get(k) is not None for k in ("ov4", "ov6", "odst"))
+        c["secret"] = rng.getrandbits(256).to_bytes(32, "big").hex()
+        c.setdefault("subnets", SUBNETS)
+        out.append(c)
+    for ra in regs_:
+        for o6 in ov6s:
+            var(addr=hx(ra), ov6=hx(o6), v6=True, en6=True)
+    for ra in regs_:
+        for o4 in (None, 0, 0x0A000001):
+            var(addr=hx(ra), ov4=o4, v4=True, en4=True)
+    for k in ("en4", "en6", "v4", "v6"):
+        var(**{k: not base.get(k)})
+    for od in (None, 443, 70000):
+        var(odst=od)
+    for t in (1, 2, 3, 4):
+        var(transport=t)
+    var(has_rr=False, ov4=None, ov6=None, odst=None)
+    return out
+
+
+def search_failing_input(ctx, binary, bases):
+    """second pass after a correspondence mismatch: run the neighbours of the mismatching messages through the real station
+    code, the real Rust functions and the direct oracle; an oracle failure is reported as the failing input"""
+    cand = []
+    for b in bases:
+        cand += neighbours(ctx, b)
+    if not cand:
+        return
+    before = len(ctx.failures)
+    rc, out, res = ctx.go_inpkg(".", "pkg/station/lib", {"zz_verif_c10_driver_test.go": "c10/detector_driver_test.go"},
+                                "^TestVerifC10Detector$", cand, timeout=900)
+    if res is None or len(res) != len(cand):
+        return
+    flat = [(ci, mi, m) for ci, r in enumerate(res) for mi, m in enumerate(r.get("msgs") or [])]
+    if any(not m["decoded"] for _, _, m in flat):
+        return
+    dets, _ = run_detector(binary, [m for _, _, m in flat]) if flat else ([], "")
+    if dets is None:
+        return
+    by_case = {}
+    for (ci, mi, _), d in zip(flat, dets):
+        by_case.setdefault(ci, {})[mi] = d
+    for ci, (c, r) in enumerate(zip(cand, res)):
+        if r.get("panic"):
+            ctx.fail("panic:ingest", "the station code panicked on an ingest case: %s" % r["panic"][:200], {k: v for k, v in c.items() if k != "subnets"})
+            continue
+        oracle_ingest(ctx, c, r, by_case.get(ci, {}), count=False)
+    ctx.cov["search"] = {"neighbours_run": len(cand), "bases": len(bases), "failing_inputs_found": len(ctx.failures) - before}
+
+
 def run(ctx):
     ctx.assumptions += [
         "text classes: an IP-literal parser reads net.IP.String's output for 4-/16-byte values back as the same address "
@@ -550,13 +643,10 @@ def _run(ctx, binary):
                 ctx.broken("correspondence", "%d registrations gave %d announcements" % (len(regs) + len(direct), len(msgs)), c)
                 continue
             for ri, rg in enumerate(regs + direct):
-                for k, (upd, want_op, want_ns) in enumerate([(False, 1, UNUSED_NS), (True, 2, ACTIVE_NS)]):
+                for k, upd in enumerate([False, True]):
                     mi = 2 * ri + k
-                    d = det_of[(ci, mi)]
-                    add("(CAnnounce %s %s %s)" % (g_reg(rg), gbool(upd), g_msg(msgs[mi], d)), ci, "ingest-announce")
-                    ok = check_announcement(ctx, "ingest" if ri < len(regs) else "NewRegistrationC2SWrapper", rg, msgs[mi], d, want_op, want_ns,
-                                            {"case": {k2: v for k2, v in c.items() if k2 != "subnets"}, "registration": rg, "message": msgs[mi]})
-                    ctx.count(("ingest-announce", rg, upd), kind="ingest-announce/" + ("ok" if ok else "bad"))
+                    add("(CAnnounce %s %s %s)" % (g_reg(rg), gbool(upd), g_msg(msgs[mi], det_of[(ci, mi)])), ci, "ingest-announce")
+            oracle_ingest(ctx, c, r, {mi: det_of[(ci, mi)] for mi in range(len(msgs))})
             continue
     # the detector model on every message
     for i, (m, d) in enumerate(zip(allmsgs, dets)):
@@ -591,3 +681,14 @@ def _run(ctx, binary):
             detail["case"] = c
             detail["observed"] = res[ci]
         ctx.broken("correspondence", "model C10 and the implementation disagree on %d case(s); first: %s" % (len(mm), what), detail)
+        # search for a failing input around the mismatching registration messages
+        bases, seen = [], set()
+        for i in mm:
+            ci = origin[i][0]
+            if ci is not None and cases[ci]["kind"] == "ingest" and ci not in seen:
+                seen.add(ci)
+                bases.append(cases[ci])
+            if len(bases) >= 4:
+                break
+        if bases and not ctx.failures:
+            search_failing_input(ctx, binary, bases)
